@@ -689,6 +689,6 @@ LAWS = [
              '(4 x 12000 executions in quick, 16 x 400000 in thorough); evaluations = executed units, distinct non-trivial counted conservatively as the number of coverage-increasing corpus entries'),
 ]
 
-LEVEL_TEXT = 'Generated-input search for a counter-example to totality: Hypothesis over four string generators and over host-callback behaviours, an enumerated function x arity x value-pool sweep (arities 0-2 complete), and coverage-guided atheris campaigns, all with the same well-formedness oracle and a deterministic step budget for termination.'
+LEVEL_TEXT = 'Evaluation from a thread other than the one that built the parser and re-entrant evaluation, with blocked-thread detection; Generated-input search for a counter-example to totality: Hypothesis over four string generators and over host-callback behaviours, an enumerated function x arity x value-pool sweep (arities 0-2 complete), and coverage-guided atheris campaigns, all with the same well-formedness oracle and a deterministic step budget for termination.'
 LEVEL_NOTE = 'Trusted: the oracle in hx/checks/c01.py, sys.settrace line counting. C-level cost (big integers) is bounded by construction of the inputs, not observed.'
 TECHNIQUE = 'property-based testing (Hypothesis) + exhaustive arity/value-pool sweep + coverage-guided fuzzing (atheris/libFuzzer) with an in-target oracle and deterministic step budget'
